@@ -232,7 +232,11 @@ def worker(args):
     for prog in progs:
         for variant in range(variants):
             with numpy.errstate(all="ignore"):
-                recs, calls, compared = run_program(prog, classes, number, mode, variant)
+                try:
+                    recs, calls, compared = run_program(prog, classes, number, mode, variant)
+                except Exception as ex:
+                    from . import common as _c
+                    recs, calls, compared = [_c.crash_record("program:" + prog["name"], ex, prog={"name": prog["name"], "code": prog["code"]})], 0, 0
             out["calls"] += calls
             out["compared"] += compared
             out["records"] += recs
